@@ -525,3 +525,101 @@ pub fn set_filter(f: FilterFn) { FILTER.store(f as usize, std::sync::atomic::Ord
 
 /// harness thread id of the calling thread (None on ungated threads)
 pub fn current_tid() -> Option<usize> { TID.with(|c| c.get()) }
+
+// C05 addition (append-only), continued: a gated thread may perform a REAL blocking call (e.g. a
+// timed wait on a real semaphore) without stalling the scheduler: inside `real_block` the thread
+// counts as not schedulable; the controller `run_threads_rb` goes on with the other threads and,
+// when nothing else can move, waits for the call to return.
+static REAL_BLOCKED: Mutex<Vec<(usize, usize)>> = Mutex::new(Vec::new());   // (run id = address of Shared, thread)
+
+pub fn real_block<R>(f: impl FnOnce() -> R) -> R {
+    let t = TID.with(|c| c.get());
+    let sh = SH.with(|s| s.borrow().clone());
+    let (Some(t), Some(sh)) = (t, sh) else { return f(); };
+    let id = Arc::as_ptr(&sh) as usize;
+    { let _st = sh.m.lock().unwrap(); REAL_BLOCKED.lock().unwrap().push((id, t)); sh.cv.notify_all(); }
+    let r = f();
+    { let _st = sh.m.lock().unwrap(); REAL_BLOCKED.lock().unwrap().retain(|x| *x != (id, t)); sh.cv.notify_all(); }
+    r
+}
+
+/// `run_threads` with support for `real_block` (no `block_until` support): threads inside a real
+/// blocking call are not enabled; when no thread is enabled the controller waits (up to
+/// `max_wait`) for a blocked call to return.
+pub fn run_threads_rb(bodies: Vec<Box<dyn FnOnce() + Send>>, max_wait: Duration, choose: &mut dyn FnMut(usize, &[usize], Option<usize>) -> Choice) -> Exec {
+    let n = bodies.len();
+    let sh = Arc::new(Shared { m: Mutex::new(St { n, parked: vec![false; n], finished: vec![false; n], killed: vec![false; n], grant: None, kill: None, log: Vec::new() }), cv: Condvar::new() });
+    let id = Arc::as_ptr(&sh) as usize;
+    let mut handles = Vec::new();
+    for (t, b) in bodies.into_iter().enumerate() {
+        let sh2 = sh.clone();
+        handles.push(std::thread::Builder::new().stack_size(256 * 1024).spawn(move || {
+            TID.with(|c| c.set(Some(t)));
+            SH.with(|s| *s.borrow_mut() = Some(sh2.clone()));
+            let r = std::panic::catch_unwind(std::panic::AssertUnwindSafe(b));
+            TID.with(|c| c.set(None));
+            let mut st = sh2.m.lock().unwrap();
+            if r.is_err() { st.log.push(Rec::Ret { tid: t, code: u64::MAX }); }
+            st.finished[t] = true;
+            sh2.cv.notify_all();
+        }).unwrap());
+    }
+    let rb = |t: usize| REAL_BLOCKED.lock().unwrap().contains(&(id, t));
+    let mut choices = Vec::new();
+    let mut enabled_log = Vec::new();
+    let mut last: Option<usize> = None;
+    let mut deadlock = false;
+    let mut step = 0usize;
+    let t0 = std::time::Instant::now();
+    let mut idle_since: Option<std::time::Instant> = None;
+    loop {
+        let mut st = sh.m.lock().unwrap();
+        let mut waited = 0;
+        while !(st.grant.is_none() && st.kill.is_none() && (0..n).all(|t| st.parked[t] || st.finished[t] || st.killed[t] || rb(t))) {
+            let (g, to) = sh.cv.wait_timeout(st, Duration::from_millis(2000)).unwrap();
+            st = g;
+            if to.timed_out() { waited += 1; if waited >= 5 { deadlock = true; break; } }
+        }
+        if deadlock { break; }
+        let enabled: Vec<usize> = (0..n).filter(|&t| st.parked[t]).collect();
+        if enabled.is_empty() {
+            if (0..n).any(|t| rb(t)) {
+                let since = *idle_since.get_or_insert_with(std::time::Instant::now);
+                if since.elapsed() > max_wait { deadlock = true; break; }
+                let (g, _) = sh.cv.wait_timeout(st, Duration::from_millis(50)).unwrap();
+                drop(g);
+                continue;
+            }
+            break;
+        }
+        idle_since = None;
+        match choose(step, &enabled, last) {
+            Choice::Run(t) => { assert!(enabled.contains(&t)); st.grant = Some(t); choices.push(t); last = Some(t); }
+            Choice::Kill(t) => { assert!(enabled.contains(&t)); st.kill = Some(t); choices.push(usize::MAX - t); }
+        }
+        enabled_log.push(enabled);
+        step += 1;
+        sh.cv.notify_all();
+    }
+    let _ = t0;
+    let killed: Vec<bool> = sh.m.lock().unwrap().killed.clone();
+    for (t, h) in handles.into_iter().enumerate() { if !killed[t] && !deadlock { let _ = h.join(); } }
+    let log = std::mem::take(&mut sh.m.lock().unwrap().log);
+    Exec { log, choices, enabled: enabled_log, deadlock }
+}
+
+/// (C13, append-only) Runs `body` on the CALLING thread as harness thread 0: accesses are
+/// classified by the installed filter and recorded, nothing is ever parked -- for sequential
+/// histories.  The filter must not return FILTER_GATE while this runs.
+pub fn run_inline(body: Box<dyn FnOnce()>) -> Exec {
+    let sh = Arc::new(Shared { m: Mutex::new(St { n: 1, parked: vec![false], finished: vec![false], killed: vec![false], grant: None, kill: None, log: Vec::new() }), cv: Condvar::new() });
+    TID.with(|c| c.set(Some(0)));
+    SH.with(|s| *s.borrow_mut() = Some(sh.clone()));
+    let r = std::panic::catch_unwind(std::panic::AssertUnwindSafe(body));
+    TID.with(|c| c.set(None));
+    SH.with(|s| *s.borrow_mut() = None);
+    let mut st = sh.m.lock().unwrap();
+    if r.is_err() { st.log.push(Rec::Ret { tid: 0, code: u64::MAX }); }
+    let log = std::mem::take(&mut st.log);
+    Exec { log, choices: Vec::new(), enabled: Vec::new(), deadlock: false }
+}
